@@ -129,7 +129,7 @@ func buildSexpFun(
 
 	sfun := gen.env.MakeFunction(gen.funcname, nargs, varargs, nil, orig)
 	sfun.SetFormalSymbols(argsyms)
-	if rebindsOwnName(name, funcargs.Val, funcbody) {
+	if rebindsOwnName(env, name, funcargs.Val, funcbody) {
 		gen.funcname = ""
 	}
 	if len(name) > 0 {
@@ -184,7 +184,9 @@ func buildSexpFun(
 // builders then clear gen.funcname, so that calls through the name stay
 // ordinary calls, which look the name up where they are made. Using the name
 // as a value -- (cons f acc), (register f) -- binds nothing and keeps the jump.
-func rebindsOwnName(name string, formals []Sexp, body []Sexp) bool {
+// A macro call in the body is compiled as its expansion, so it binds what its
+// expansion binds: the scan expands it the way GenerateCallBySymbol will.
+func rebindsOwnName(env *Zlisp, name string, formals []Sexp, body []Sexp) bool {
 	if len(name) == 0 {
 		return false
 	}
@@ -192,12 +194,16 @@ func rebindsOwnName(name string, formals []Sexp, body []Sexp) bool {
 		return true
 	}
 	for _, b := range body {
-		if bindsName(b, name) {
+		if bindsName(env, b, name, 0) {
 			return true
 		}
 	}
 	return false
 }
+
+// maxMacroScanDepth bounds the expansions followed by bindsName (a macro may
+// expand into a call of itself).
+const maxMacroScanDepth = 32
 
 // formalsBind: f, the lazy #f, and the typed f:type of a func declaration.
 func formalsBind(formals []Sexp, name string) bool {
@@ -233,14 +239,14 @@ func assignsIn(elems []Sexp, name string) bool {
 	return false
 }
 
-func bindsName(expr Sexp, name string) bool {
+func bindsName(env *Zlisp, expr Sexp, name string, depth int) bool {
 	var elems []Sexp
 	switch e := expr.(type) {
 	case *SexpArray:
 		elems = e.Val
 	case *SexpPair:
 		if !IsList(e) {
-			return bindsName(e.Head, name) || bindsName(e.Tail, name)
+			return bindsName(env, e.Head, name, depth) || bindsName(env, e.Tail, name, depth)
 		}
 		elems, _ = ListToArray(e)
 		if head, ok := e.Head.(*SexpSymbol); ok {
@@ -286,6 +292,13 @@ func bindsName(expr Sexp, name string) bool {
 					}
 				}
 			}
+			if macro, isMacro := env.macros[head.number]; isMacro && depth < maxMacroScanDepth {
+				// what the generator will compile in place of this call
+				expansion, err := env.Duplicate().Apply(macro, args)
+				if err == nil && bindsName(env, expansion, name, depth+1) {
+					return true
+				}
+			}
 		}
 	default:
 		return false
@@ -294,7 +307,7 @@ func bindsName(expr Sexp, name string) bool {
 		return true
 	}
 	for _, x := range elems {
-		if bindsName(x, name) {
+		if bindsName(env, x, name, depth) {
 			return true
 		}
 	}
